@@ -41,6 +41,10 @@ fn rng_check(st: Option<&mut Stats>, s: NaiveDate, e: NaiveDate, site: Site, met
     };
     let l = site.loc();
     let dr = DateRange::from(s..=e);
+    if ce(s) % 3 == 0 {
+        // typical flow: a single-date call with explicit weather for the first date, then the range, on one thread
+        let _ = std::panic::catch_unwind(std::panic::AssertUnwindSafe(|| prayer_times_dt(&p, l, s, Some(weather(870.0, -25.0)))));
+    }
     let got = prayer_times_dt_rng(&p, l, &dr);
     let n = model_days(s, e);
     let mut want: BTreeMap<NaiveDate, Res> = BTreeMap::new();
